@@ -144,7 +144,7 @@ not to be backmapped contribute nothing. -/
 theorem C06_own_residue (f : K) (T : List (String × Template K)) (rs : List (Res K))
     (out : List (Nat × V3 K)) (built : List Nat) (h : placeInitCoords f T rs = some (out, built)) :
     (∃ parts, rs.mapM (placeRes f T) = some parts ∧ out = parts.flatten) ∧
-    built = (rs.filter (·.backmap)).map (·.resid) ∧
+    built = (rs.filter (·.backmap)).map (·.node) ∧
     ∀ r ∈ rs, r.backmap = false → placeRes f T r = some [] := by
   obtain ⟨parts, h1, h2, h3⟩ := placeInit_eq f T rs out built h
   exact ⟨⟨parts, h1, h2⟩, h3, fun r _ hb => by simp [placeRes, hb]⟩
